@@ -341,6 +341,59 @@ def body_auto(E, kind, n1, n2, base, vary=False):
         return ds_dims(env, ds, "y") == ("a", "b", "w")
 
 
+def body_auto_const(E, kind, n1, base):
+    """var_names=None and a constant that names a dimension of the returned objects: it is a coordinate"""
+    kind = concretize(kind, 0, 1)
+    n1 = concretize(n1, 1, 2)
+    with E() as env:
+        if env.mode == "sym":
+            XR, arr = mx.MiniXRModule, mx.MiniNP.asarray
+        else:
+            import numpy
+            import xarray
+
+            XR, arr = xarray, numpy.asarray
+
+        def fn(a, w, t):
+            x = payload(base, a, 0)
+            ds = XR.Dataset(data_vars={"y": (("w",), arr([x + 1, x + 2]))})
+            return ds if kind == 0 else ds["y"]
+
+        ds = cr.combo_runner_to_ds(fn, {"a": A[:n1]}, var_names=None, constants={"w": list(W), "t": 5}, verbosity=0)
+        if ds_coord(env, ds, "w") != list(W):
+            return False
+        attrs = dict(ds.attrs)
+        if "w" in attrs or attrs.get("t") != 5:
+            return False
+        for a in A[:n1]:
+            for wi, wv in enumerate(W):
+                if ds_value(env, ds, "y", {"a": a, "w": wv}) != payload(base, a, 0) + 1 + wi:
+                    return False
+        return True
+
+
+def body_run_constants(E, to_df, base, t1, t2):
+    """constants given for one run apply to that run only: a later run sees the Runner's stored constants"""
+    with E() as env:
+        def fn(a, t=0):
+            return payload(base, a, 0) + 1000 * t
+
+        r = Runner(fn, "x", constants={"t": t1})
+        first = r.run_combos({"a": A[:2]}, constants={"t": t2}, verbosity=0)
+        for a in A[:2]:
+            if ds_value(env, first, "x", {"a": a}) != payload(base, a, 0) + 1000 * t2:
+                return False
+        if dict(first.attrs).get("t") != t2:
+            return False
+        if cbool(to_df):
+            rows = rows_of(env, r.run_cases([(a,) for a in A[:2]], to_df=True, verbosity=0))
+            return all(row["t"] == t1 and row["x"] == payload(base, row["a"], 0) + 1000 * t1 for row in rows)
+        second = r.run_combos({"a": A[:2]}, verbosity=0)
+        if dict(second.attrs).get("t") != t1 or dict(r._constants) != {"t": t1}:
+            return False
+        return all(ds_value(env, second, "x", {"a": a}) == payload(base, a, 0) + 1000 * t1 for a in A[:2])
+
+
 BODIES = {}
 _G = globals()
 _J = "0 <= j1 <= 1 and 0 <= j2 <= 2 and 0 <= j3 <= 3 and 0 <= j4 <= 4 and 0 <= j5 <= 5"
@@ -379,6 +432,14 @@ CONDS = (
                   bounds="DataFrame form: 1-5 settings, 1-2 output columns, un-shuffled and every shuffle permutation; "
                          "each row must pair a setting with that setting's outputs; entry: 0 combo_runner_to_df "
                          "1 case_runner_to_df 2 Runner.run_combos(to_df) 3 Runner.run_cases(to_df)")
+    + [make_cond(_G, "auto_const", body_auto_const, "kind:int n1:int base:int", ["0 <= kind <= 1 and 1 <= n1 <= 2"],
+                 timeout=120,
+                 bounds="var_names=None, function returning a Dataset / DataArray with an un-labelled dimension named "
+                        "by a constant: the constant becomes that dimension's coordinate, other constants attributes"),
+       make_cond(_G, "run_constants", body_run_constants, "to_df:bool base:int t1:int t2:int", ["t1 != t2"],
+                 timeout=120,
+                 bounds="Runner.run_combos(constants=...) followed by a run without: the override applies to that "
+                        "run only (Dataset and DataFrame form)")]
     + [make_cond(_G, "auto", body_auto, "kind:int n1:int n2:int base:int vary:bool",
                  ["0 <= kind <= 2 and 1 <= n1 <= 3 and 1 <= n2 <= 2"], timeout=300,
                  bounds="var_names=None with the function returning a Dataset / DataArray / dict, grids up to 3x2; "
